@@ -103,7 +103,8 @@ def run_sweep(spec, tier, mg):
     FT = flagged_class(mg)
     res["bodies"] = 0
     for cs in spec["c02"]:
-        engine = eng_mod.Engine(skip_ties=True)
+        # bodies whose equality paths carry a claim in C02 (e.g. `x ** p` at p == 1, 2) are explored on those paths here too
+        engine = eng_mod.Engine(skip_ties=not cs.get("smooth_at_ties"))
         engine.reset_fn = lib.reset_state
         env0 = gradcase.make_env(mg)
         findings = []
@@ -202,13 +203,15 @@ CS = %r
 rng = np.random.RandomState(5)
 names = [e[0] for e in CS.get("leaves", [])]
 bad = []
-for kinds in itertools.product("AKV", repeat=len(names)):
+for kinds, special in itertools.product(itertools.product("AKV", repeat=len(names)), (None, 1.0, 2.0, 0.0)):
+    # (0-d operands also take the values at which libraries like to short-cut: 1, 2, 0)
     env = dict(globals())
     for name, shape in CS.get("carrs", []): env[name] = np.asarray(rng.rand(*shape) * 0.5 + 0.25)
     if CS.get("setup"): exec(CS["setup"], env)
     T = {}
     for ent, kd in zip(CS["leaves"], kinds):
         a = np.asarray(rng.rand(*ent[1]) * 0.5 + 0.25)
+        if special is not None and len(ent[1]) == 0: a = np.asarray(special)
         if len(ent) > 2 and ent[2] == "F" and len(ent[1]) >= 2: a = np.asfortranarray(a)
         T[ent[0]] = a if kd == "A" else mg.Tensor(a, constant=(kd == "K"))
         env[ent[0]] = T[ent[0]]
